@@ -8,7 +8,7 @@ import time
 import z3
 
 STATS = {'z3-api': [0, 0.0], 'z3-4.8.12': [0, 0.0], 'cvc5-1.0.3': [0, 0.0],
-         'feasibility': [0, 0.0]}
+         'feasibility': [0, 0.0], 'z3-api-sliced': [0, 0.0]}
 
 API_TIMEOUT_MS = int(os.environ.get('PYVC_Z3_MS', '10000'))
 EXT_TIMEOUT_S = int(os.environ.get('PYVC_EXT_S', '30'))
